@@ -268,6 +268,16 @@ impl TypeEnv {
         self.lookup_constructor_with_namespace(None, constr)
     }
 
+    /// The constructor a form with field syntax (`S { .. }`, literal or pattern) names: only
+    /// structs have fields, so a variant called `S` does not stand in the struct's way.
+    pub fn lookup_field_syntax_constructor(
+        &self,
+        constr: &TastIdent,
+    ) -> Option<(Constructor, tast::Ty)> {
+        self.lookup_struct_constructor(constr)
+            .or_else(|| self.lookup_enum_constructor(constr))
+    }
+
     pub fn lookup_constructor_with_namespace(
         &self,
         enum_name: Option<&TastIdent>,
@@ -628,6 +638,13 @@ impl GlobalTypeEnv {
     ) -> Option<(Constructor, tast::Ty)> {
         self.type_env
             .lookup_constructor_with_namespace(enum_name, constr)
+    }
+
+    pub fn lookup_field_syntax_constructor(
+        &self,
+        constr: &TastIdent,
+    ) -> Option<(Constructor, tast::Ty)> {
+        self.type_env.lookup_field_syntax_constructor(constr)
     }
 
     pub fn is_trait(&self, name: &str) -> bool {
